@@ -68,6 +68,10 @@ CHECKS["C12"] = ("fvh-blackbox", "twin-server differential over generated histor
          "twin servers fed the same generated history over the deterministic data catalogue in a generated database: direct on one, wrapped in a script on the other; the rendering of what the script saw must equal the standard RESP->Lua conversion of the direct reply, errors must raise (call) or arrive as err-tables (pcall), and the canonical dumps must be equal after every step. Fixed script checks: KEYS/ARGV bytes incl. all 256 byte values, call-aborts/pcall-continues with earlier effects kept, EVALSHA == EVAL in a non-zero database, 23 sandbox escapes with a canary directory, 25 forbidden commands. Generated nested Lua literals returned by a script vs. the standard Lua->RESP conversion. Atomicity: concurrent script transfers with invariant-checking observers.",
          "status replies and nil replies reach scripts in a non-standard form pinned by the repository's tests (K10, K11: compared modulo exactly that); return conversions the tests pin differently (false, floats, empty table) are not generated; a script's effect on blocked clients is C13's", "3/C12")
 
+CHECKS["C13"] = ("fvh-blackbox", "model-based generated histories of sequenced multi-client blocking operations against a reference model of blocking-pop semantics, plus unsequenced concurrent bursts with a conservation oracle",
+         "generated histories of four clients over three lists (BLPOP/BRPOP on 1-3 keys with finite/infinite timeouts; pushes of 1-4 unique elements sent directly, in MULTI/EXEC, from a script; LPOP/RPOP; a pipelined push+pop batch; waits; disconnects of blocked clients), sequenced by PING round trips on a control connection so that a reference model decides every reply: FIFO service with head/tail by direction, prompt service, nil never before the timeout and always within 4 s after it, no nil for infinite waits, nothing for clients to whom nothing is due, LRANGE == pushed minus delivered after every step, wind-down residue checks. Unsequenced bursts (3 pushers, 5 blocking poppers, disconnects while blocked) checked for conservation only.",
+         "schedules inside one event-loop iteration are sampled by the bursts only; the 4 s promptness bound is the harness's choice; the registry is observed through behaviour (later pushes stay, later calls run their full timeout), not through a hook", "3/C13")
+
 checks = []
 for i in ids:
     if i in CHECKS:
